@@ -472,6 +472,7 @@ func (s *Server) attachClient(cl *Client, listener string) error {
 	if err != nil {
 		return fmt.Errorf("ack connection packet: %w", err)
 	}
+	verifPoint("attach.afterConnack")
 
 	s.loop.willDelayed.Delete(cl.ID) // [MQTT-3.1.3-9]
 
@@ -498,6 +499,7 @@ func (s *Server) attachClient(cl *Client, listener string) error {
 	s.hooks.OnDisconnect(cl, err, expire)
 
 	if expire && !cl.IsTakenOver() {
+		verifPoint("attach.insideExpireBlock")
 		cl.ClearInflights()
 		s.UnsubscribeClient(cl)
 		s.Clients.Delete(cl.ID) // [MQTT-4.1.0-2] ![MQTT-3.1.2-23]
@@ -603,6 +605,7 @@ func (s *Server) validateConnect(cl *Client, pk packets.Packet) packets.Code {
 func (s *Server) inheritClientSession(pk packets.Packet, cl *Client) bool {
 	if existing, ok := s.Clients.Get(cl.ID); ok {
 		_ = s.DisconnectClient(existing, packets.ErrSessionTakenOver)                                   // [MQTT-3.1.4-3]
+		verifPoint("inherit.afterDisconnectOld")                                                        // schedule point (verif build tag)
 		if pk.Connect.Clean || (existing.Properties.Clean && existing.Properties.ProtocolVersion < 5) { // [MQTT-3.1.2-4] [MQTT-3.1.4-4]
 			s.UnsubscribeClient(existing)
 			existing.ClearInflights()
